@@ -160,6 +160,14 @@ func (c *Case) c07Both(e xref.Expr, ctx *xdoc.Node) bool {
 func c07Matrix(c *Case) {
 	g := c.G()
 	d := valueDoc(c.GShared("vdoc", int64(c.Index/4)))
+	if (c.Index/4)%3 == 2 {
+		// numerals padded with Unicode-only white space are NOT numbers for XPath
+		dg := c.GShared("xdoc", int64(c.Index/4))
+		o := xgen.DefaultTree()
+		o.MaxDepth, o.MaxFan = 3, 4
+		o.TextVals, o.AttrVals = xgen.ExoticTextVals, xgen.ExoticAttrVals
+		d = dg.Tree(o)
+	}
 	ctx := pickCtx(g, d)
 	num := func(f float64) xref.Expr {
 		if f < 0 {
